@@ -654,19 +654,24 @@ func (s *storage) ReceiveBlob(ctx context.Context, br blob.Ref, source io.Reader
 
 	// Check if it's a dup. Still accept it if the pack file on disk seems to be corrupt
 	// or truncated.
-	if m, err := s.meta(br); err == nil {
+	m, merr := s.meta(br)
+	if merr == nil {
 		fi, err := os.Stat(s.filename(m.file))
 		if err == nil && fi.Size() >= m.offset+int64(m.size) {
 			return sbr, nil
 		}
 	}
 
-	err = s.append(sbr, &b)
+	// Only when the index positively has no row for br may a failed
+	// append remove "its" row again: after a failed lookup the row of an
+	// already stored blob may well exist.
+	err = s.append(sbr, &b, errors.Is(merr, os.ErrNotExist))
 	return
 }
 
 // append writes the provided blob to the current data file.
-func (s *storage) append(br blob.SizedRef, r io.Reader) error {
+// noRow reports that the index is known to have no row for the blob yet.
+func (s *storage) append(br blob.SizedRef, r io.Reader, noRow bool) error {
 	s.mu.Lock()
 	defer s.mu.Unlock()
 	if s.closed {
@@ -715,6 +720,11 @@ func (s *storage) append(br blob.SizedRef, r io.Reader) error {
 	// below must seek and truncate the file the blob was written to.
 	err = s.index.Set(br.Ref.String(), blobMeta{packIdx, offset, br.Size}.String())
 	if err != nil {
+		if !noRow {
+			// The row we would delete below may belong to the blob as
+			// it was stored before: leave index and data alone.
+			return err
+		}
 		// The Set may have taken effect although it reported an error
 		// (e.g. the acknowledgement of a remote index got lost). Make
 		// sure no row points at the data before discarding the data. If
